@@ -39,6 +39,8 @@ def base_names():
     for s in default_unit_symbol_lut:
         B.setdefault(s, set()).add(s)
     for s, alts in default_unit_name_alternatives.items():
+        if s not in default_unit_symbol_lut:
+            continue  # reported by part_alias_table: an alias row must hang on a table symbol
         for a in alts:
             B.setdefault(a, set()).add(s)
     return B
@@ -213,10 +215,45 @@ def part_universe(ctx, shard):
 
 
 def _is_symbol_prefix_plus_symbol(s):
+    """the spellings the statement promises for a prefixable unit, read off the RAW tables (not off the generated name lists):
+    prefix symbol + table symbol, prefix symbol + short listed alias (< 4 characters), prefix word + listed alias"""
     for p in PREFIX_SYMS:
-        if s.startswith(p) and s[len(p) :] in default_unit_symbol_lut:
+        rest = s[len(p) :]
+        if s.startswith(p) and rest in default_unit_symbol_lut:
+            return True
+        if s.startswith(p) and len(rest) < 4 and any(S in PREFIXABLE and rest in ALIASES_OF.get(S, ()) for S in BASE.get(rest, ())):
+            return True
+    for w in PREFIX_WORDS:
+        rest = s[len(w) :]
+        if s.startswith(w) and any(S in PREFIXABLE and rest in ALIASES_OF.get(S, ()) for S in BASE.get(rest, ())):
             return True
     return False
+
+
+def part_alias_table(ctx, shard):
+    """the raw alias table: every row hangs on a table symbol, every listed alias is usable and denotes that symbol's unit"""
+    for key in shard:
+        alts = default_unit_name_alternatives[key]
+        ctx.count("evaluations")
+        case = {"part": "alias-table", "key": key}
+        if key not in default_unit_symbol_lut:
+            ctx.violation("C14|alias-table|mode=alias-row-for-a-name-that-is-not-a-table-symbol", case, "table symbol", key)
+            for a in (key,) + tuple(alts):
+                g = real(a)
+                if g[0] != "ok":
+                    ctx.violation("C14|alias-table|mode=listed-name-not-usable-as-string", dict(case, name=a), "resolves", g)
+            continue
+        want = unit_of_reading(1, key)
+        for a in alts:
+            ctx.count("evaluations")
+            ctx.decided(("alias", key, a))
+            g = real(a)
+            if g[0] != "ok":
+                ctx.violation(f"C14|alias-table|sym={key}|mode=listed-name-not-usable-as-string", dict(case, name=a), "resolves", g)
+            elif not same_unit(g, want):
+                ctx.violation(f"C14|alias-table|sym={key}|mode=alias-denotes-another-unit", dict(case, name=a), want, g)
+            if not hasattr(usym, a) and a.isidentifier():
+                ctx.violation(f"C14|alias-table|sym={key}|mode=listed-name-missing-from-unit_symbols", dict(case, name=a), "attribute", None)
 
 
 def _is_prefix_plus_unit(s):
@@ -475,6 +512,8 @@ def run(ctx):
     attrs = sorted(k for k, v in vars(usym).items() if not k.startswith("_") and isinstance(v, Unit))
     harness.pmap(ctx, part_attrs, chunks(attrs, 600))
     part_unicode(ctx, UNICODE_PAIRS)
+    akeys = sorted(default_unit_name_alternatives)
+    harness.pmap(ctx, part_alias_table, chunks(akeys, 20))
     harness.pmap(ctx, part_double, [[S] for S in DOUBLE_BASES])
     # every exposed name must be inside the universe (otherwise the reader has no opinion on it)
     missing = sorted(set(exposed_names()) - set(uni))
@@ -513,6 +552,8 @@ def replay(case):
         part_attrs(ctx, [case["name"]])
     elif case["part"] == "unicode":
         part_unicode(ctx, [tuple(case["pair"])])
+    elif case["part"] == "alias-table":
+        part_alias_table(ctx, [case["key"]])
     elif case["part"] == "double":
         part_double(ctx, [case["sym"]])
     return list(ctx.violations.items())
